@@ -22,7 +22,10 @@ def run(tier):
     rep.rule('R19.c', 'retained state is bounded: observation list growth is guarded by a constant cap; the icon slot is filled only when empty', floor=3)
     rep.rule('R19.e', 'the link field of an observation already in the list is never rewritten (the list is only extended at its head and released from its head)', floor=100)
     rep.rule('R19.d', 'a topology Reset leaves nothing allocated except the per-interface record', floor=1)
+    rep.rule('R19.f', 'the record lookup creates a record only when none matches, and never stores into an existing one (a recycled record would drop the list and icon it owns)', floor=3)
     prog = load_core('systemd')
+    from .state_record import check_state_for_iface
+    check_state_for_iface(rep, prog, 'R19.f')
     sites = []
     for ix in prog.index.values():
         for fname, fn in ix.functions.items():
